@@ -28,3 +28,9 @@ package ops
 //@   ensures[C12] result.SignatureAlgorithm == 13 && result.PublicKeyAlgorithm == 1 && result.BasicConstraintsValid && result.NotBefore == tmpl.NotBefore && result.Version == 3
 //@   ensures[C12] tmpl.Issuer == nil ==> result.IsCA && result.KeyUsage == 96 && result.MaxPathLenZero && result.NotAfter == timeAdd(tmpl.NotBefore, 9131 * 24 * 3600000000000) && result.Issuer == result.Subject
 //@   ensures[C12] tmpl.Issuer != nil ==> !result.IsCA && result.KeyUsage == 1 && result.NotAfter == timeAdd(tmpl.NotBefore, 1826 * 24 * 3600000000000) && result.Issuer == tmpl.Issuer.Subject
+
+// C12: unless overridden, the next signing-key serial is the current primary certificate's subject serial + 1.
+//@ func NextSigningKeySerial
+//@   assigns nothing
+//@   modifies bigv, caCalls, caPrimary, certKeyArg, lastCert
+//@   ensures[C12] err == nil ==> result0 != nil && certKeyArg == caPrimary && bigv[result0] == strInt(certSubjSerial(lastCert)) + 1
